@@ -355,6 +355,9 @@ impl SvgCfg {
             }
             self.warm_restore(b, m0);
             if self.late_layer() {
+                // render once more with the final values (nothing but the last layer is missing), then add the layer:
+                // the last call before the render under test is shape() / shape_color()
+                let _ = b.to_str(q);
                 let (si, col) = self.layers.last().unwrap();
                 self.add_layer(b, *si, col);
             }
@@ -376,6 +379,7 @@ impl SvgCfg {
             }
             self.warm_restore(ib, m0);
             if self.late_layer() {
+                let _ = ib.to_pixmap(q);
                 let (si, col) = self.layers.last().unwrap();
                 self.add_layer(ib, *si, col);
             }
